@@ -27,6 +27,19 @@ func runC12(c *Ctx) {
 		if bc.C > 120 {
 			bc.C = r.Range(1, 120)
 		}
+		if idx > 0 && r.Chance(1, 400) {
+			// a big core whose size is not a multiple of anything convenient (not of a power of two, not of the number
+			// of CPUs): the warriors sit near its top in some placements, elsewhere in others
+			bc.M = []int{65537, 70001, 100003, 131071, 65536 + 16*r.Range(1, 500) + r.Range(1, 15)}[r.Intn(5)]
+			bc.R, bc.W = bc.M, bc.M
+			for _, w := range bc.Warriors {
+				w.Off = []int{bc.M - 1 - r.Intn(12), bc.M - len(w.Code), r.Intn(bc.M), r.Intn(20)}[r.Intn(4)]
+				if w.Off < 0 {
+					w.Off = 0
+				}
+			}
+			c.Inc("battles_on_big_odd_cores")
+		}
 		m := bc.M
 		base, bws, err := bc.newReal(0)
 		if err != nil {
